@@ -132,6 +132,8 @@ static int optional_hook(m_mod_t *mod, enum mod_hook req_hook) {
     int ret;
 
     M_MEM_LOCK(mod, {
+        /* Restore the outer module when a hook is run from inside another module's callback */
+        m_mod_t *outer_mod = mod->ctx->curr_mod;
         mod->ctx->curr_mod = mod;
         switch (req_hook) {
         case MOD_START:
@@ -152,7 +154,7 @@ static int optional_hook(m_mod_t *mod, enum mod_hook req_hook) {
         default:
             break;
         }
-        mod->ctx->curr_mod = NULL;
+        mod->ctx->curr_mod = outer_mod;
 
         ret = bool_ret ? 0 : -1;
         if (m_mod_is(mod, M_MOD_ZOMBIE)) {
